@@ -594,7 +594,46 @@ type Stress struct {
 
 var stressOvertaken, stressProbed atomic.Int64
 
-const nslots = 4
+const nslots = 256
+
+// slotWrites is the harness-side log of acknowledged slot writes (slot, value, time of Commit's return).
+type slotWrite struct {
+	slot int
+	val  string
+	at   int64
+}
+
+type slotWrites struct {
+	mu  sync.Mutex
+	log []slotWrite
+}
+
+func (l *slotWrites) add(slot int, val string) {
+	l.mu.Lock()
+	l.log = append(l.log, slotWrite{slot, val, stamp()})
+	if len(l.log) > 20000 {
+		l.log = append([]slotWrite{}, l.log[10000:]...)
+	}
+	l.mu.Unlock()
+}
+
+// writtenOnceSince: a slot with exactly one acknowledged write whose Commit returned after t0.
+func (l *slotWrites) writtenOnceSince(t0 int64) (int, string, bool) {
+	l.mu.Lock()
+	defer l.mu.Unlock()
+	cnt := map[int]int{}
+	val := map[int]string{}
+	for i := len(l.log) - 1; i >= 0 && l.log[i].at >= t0; i-- {
+		cnt[l.log[i].slot]++
+		val[l.log[i].slot] = l.log[i].val
+	}
+	for sl, n := range cnt {
+		if n == 1 {
+			return sl, val[sl], true
+		}
+	}
+	return 0, "", false
+}
 
 func slotKey(i int) string { return fmt.Sprintf("slot%d", i) }
 
@@ -632,6 +671,7 @@ func runStress(s Stress, dir string) (problems []problem, acked int64) {
 	})
 	ack := make([]atomic.Int64, s.Counters)
 	var frozen [nslots]atomic.Bool
+	slotLog := &slotWrites{}
 	_ = db.Update(func(tx *originium.Txn) error {
 		for i := 0; i < nslots; i++ {
 			if err := tx.Set(slotKey(i), []byte("init")); err != nil {
@@ -654,18 +694,26 @@ func runStress(s Stress, dir string) (problems []problem, acked int64) {
 			}()
 			probeSeq := 0
 			for r%2 == 1 && !stop.Load() {
-				// slot probe (C06/C07): read ONE rarely written key; if the read watermark overtakes this
-				// transaction and the slot has meanwhile been overwritten, freeze the slot, let the
-				// engine run on, then write it: the commit must be refused
-				probeSeq++
-				sl := (r + probeSeq) % nslots
+				// slot probe (C06/C07). STEERING: if the read watermark overtakes this (still unread)
+				// transaction, the harness log of slot writes tells which slot was written exactly once
+				// while its Begin was in progress. VERDICT (valid for any transaction): it reads that slot
+				// from the store and gets the OLD value, so the write is after its snapshot; the slot is
+				// frozen, the engine runs on; its own write to the slot must then be refused.
+				t0 := stamp()
 				tx := db.Begin(true)
-				s0, sok := tx.Get(slotKey(sl))
 				if !originium.VerifTxnOvertaken(tx) {
 					tx.Discard()
 					continue
 				}
 				overtaken.Add(1)
+				sl, newVal, ok := slotLog.writtenOnceSince(t0)
+				if !ok || frozen[sl].Swap(true) {
+					tx.Discard()
+					continue
+				}
+				s0, sok := tx.Get(slotKey(sl))
+				// the verdict does not trust the log: a transaction begun after this one's Begin returned
+				// must read a different value of the slot, which proves a commit to it after this snapshot
 				changed := false
 				_ = db.View(func(f *originium.Txn) error {
 					if v, ok := f.Get(slotKey(sl)); ok != sok || string(v) != string(s0) {
@@ -673,7 +721,9 @@ func runStress(s Stress, dir string) (problems []problem, acked int64) {
 					}
 					return nil
 				})
-				if !changed || frozen[sl].Swap(true) {
+				_ = newVal
+				if !changed {
+					frozen[sl].Store(false)
 					tx.Discard()
 					continue
 				}
@@ -686,7 +736,7 @@ func runStress(s Stress, dir string) (problems []problem, acked int64) {
 				err := tx.Commit()
 				frozen[sl].Store(false)
 				if err == nil {
-					prob("not_serializable", fmt.Sprintf("a transaction read %q = (%q,%v) from the store, another committed transaction then overwrote it (a fresh read showed a different value), yet the first one's write to %q was committed instead of refused (lost update)", slotKey(sl), s0, sok, slotKey(sl)))
+					prob("not_serializable", fmt.Sprintf("a transaction read %q = (%q,%v) from the store; a transaction begun later read another value (so a commit to it lies after the first one's snapshot), yet the first one's own write to %q was committed instead of refused (lost update)", slotKey(sl), s0, sok, slotKey(sl)))
 					stop.Store(true)
 				}
 			}
@@ -766,11 +816,17 @@ func runStress(s Stress, dir string) (problems []problem, acked int64) {
 					tx.Discard()
 					return
 				}
-				// every commit also (blindly) rewrites one of a few slot keys, unless a probe froze it
-				if sl := (w + done) % nslots; !frozen[sl].Load() {
-					_ = tx.Set(slotKey(sl), []byte(fmt.Sprintf("s%d.%d", w, done)))
+				// every commit also (blindly) rewrites one slot key, unless a probe froze it
+				sl := (w*37 + done*11) % nslots
+				slotVal := fmt.Sprintf("s%d.%d.%d", w, done, ki)
+				wroteSlot := false
+				if !frozen[sl].Load() {
+					wroteSlot = tx.Set(slotKey(sl), []byte(slotVal)) == nil
 				}
 				err := tx.Commit()
+				if err == nil && wroteSlot {
+					slotLog.add(sl, slotVal)
+				}
 				if err == nil {
 					ack[ki].Add(1)
 					done++
